@@ -106,7 +106,7 @@ fn check_mapcut(ctx: &mut Ctx, d: &Desc, bytes: &[u8], elements: usize) {
             Err(_) => return "map refused".to_string(),
         };
         match catalogue::mapped_view(d, &map, 0) {
-            Some(Ok(_)) => "view accepted".to_string(),
+            Some(Ok(info)) => if info.outside_map.is_some() { "view accepted and extends beyond the map".to_string() } else { "view accepted".to_string() },
             Some(Err(_)) => "view refused".to_string(),
             None => "no view type".to_string(),
         }
